@@ -12,10 +12,12 @@ NotifyOp(b) == [op |-> "notify", batch |-> b]
 Simple(o) == [op |-> o]
 
 (* W1: the map laws (C02): loads, owned, get, goi, remove, take, clear ------ *)
-W1Keys == {K("L0","a"), K("L1","a"), K("L2","a"), K("L0","b"), K("N0","a"), K("S0","a")}
+W1Keys == {K("L0","a"), K("L1","a"), K("L2","a"), K("L0","b"), K("N0","a"), K("S0","a"), K("N1","b")}
 W1Files == {F("a","x"), F("a","y"), F("b","x")}
 W1Srcs == {[f \in W1Files |-> CASE f = F("a","x") -> CVal(1) [] f = F("a","y") -> CVal(2) [] OTHER -> None]}
 W1Scripts == (K("N0","a") :> <<ILoad("L0","a",TRUE), ILoad("L2","a",FALSE), IGet("L0","b")>>)
+          \* a load that stores a placeholder under its own key before it returns (re-entrancy)
+          @@ (K("N1","b") :> <<IGoi("N1","b",5), ILoad("L0","a",FALSE)>>)
 W1Ops ==
     Call("load", W1Keys \ {K("S0","a")}) \cup Call("get", W1Keys) \cup Call("remove", W1Keys \ {K("L1","a")})
     \cup Call("owned", {K("L0","a"), K("N0","a")}) \cup Call("take", {K("L0","a"), K("N0","a"), K("S0","a")})
@@ -79,11 +81,11 @@ W5Ops == Call("load", {K("DL0","d"), K("DL1","d"), K("RL0",""), K("DL0","")}) \c
                EditOp(F("d.b","y"), None), [op |-> "mkdir", d |-> "d.e"]}
 
 (* W6: what is declared non-reloadable (C10; the D7 history) ---------------- *)
-W6Keys == {K("L0","a"), K("L2","a"), K("S0","a"), K("N4","a")}
+W6Keys == {K("L0","a"), K("L2","a"), K("S0","a"), K("N4","a"), K("AL2","a"), K("AL0","a")}
 W6Files == {F("a","x")}
 W6Srcs == {[f \in W6Files |-> CVal(1)]}
 W6Scripts == (K("N4","a") :> <<IRead("a","x")>>)
-W6Ops == Call("load", {K("L0","a"), K("L2","a"), K("N4","a")}) \cup Call("remove", {K("L0","a")}) \cup Call("take", {K("L0","a")})
+W6Ops == Call("load", {K("L0","a"), K("L2","a"), K("N4","a"), K("AL2","a"), K("AL0","a")}) \cup Call("remove", {K("L0","a")}) \cup Call("take", {K("L0","a")})
          \cup {Simple("clear"), Simple("hot_reload"), NotifyOp({FileE("a","x")}), EditOp(F("a","x"), CVal(2)), EditOp(F("a","x"), CVal(3))}
          \cup {[op |-> "goi", k |-> k, n |-> 7] : k \in {K("L0","a"), K("S0","a"), K("L2","a")}}
 
@@ -111,6 +113,22 @@ W7cOps == Call("load", {K("N1","d")}) \cup W7cArms \cup {Simple("disarm"), Simpl
 W6dOps == Call("load", {K("L0","a")}) \cup Call("remove", {K("L0","a")})
           \cup {Simple("clear"), Simple("hot_reload"), NotifyOp({FileE("a","x")}), EditOp(F("a","x"), CVal(2)),
                 [op |-> "goi", k |-> K("L0","a"), n |-> 7]}
+
+(* W7d: a compound whose reload fails before it reaches its later dependencies  *)
+W7dKeys == {K("L1","a"), K("N0","c")}
+W7dScripts == (K("N0","c") :> <<IReadReq("b","x"), ILoad("L1","a",TRUE)>>)
+W7dOps == Call("load", {K("N0","c")}) \cup {Simple("disarm"), Simple("hot_reload"),
+          [op |-> "arm", what |-> "read", at |-> 0, kind |-> "other"], [op |-> "arm", what |-> "read", at |-> 0, kind |-> "notfound"],
+          NotifyOp({FileE("b","x")}), NotifyOp({FileE("a","y")}), EditOp(F("b","x"), CVal(2)), EditOp(F("a","y"), CVal(3))}
+
+(* W9b: a panic inside no_record, caught inside the load (C14, C09) ------------ *)
+W9bKeys == {K("L0","a"), K("L0","b"), K("N0","d")}
+W9bFiles == {F("a","x"), F("b","x"), F("d","y")}
+W9bSrcs == {[f \in W9bFiles |-> CVal(1)]}
+W9bScripts == (K("N0","d") :> <<ITry(<<INoRec(<<ILoad("L0","a",TRUE), IPanic>>)>>), ILoad("L0","b",TRUE), IRead("d","y"),
+                                 ITry(<<IRead("a","x"), IPanic>>)>>)
+W9bOps == Call("load", {K("N0","d"), K("L0","b")}) \cup {Simple("hot_reload")}
+          \cup {NotifyOp({FileE(f[1], f[2])}) : f \in W9bFiles} \cup {EditOp(f, CVal(2)) : f \in W9bFiles}
 
 (* W8: enhance_hot_reloading ('static cache) --------------------------------- *)
 W8Ops == Call("load", {K("N2","d"), K("L0","a")}) \cup {Simple("enhance"), Simple("hot_reload")}
